@@ -283,3 +283,25 @@ ADDENDA4 = {
 }
 for _k, _v in ADDENDA4.items():
     CLAIMS[_k]["text"] = CLAIMS[_k]["text"].rstrip() + " " + _v
+
+ADDENDA5 = {
+    "C01": "Round 6: shares EP-BOUND.",
+    "C02": "Round 6: every expression kind stays symbolic as an argument of a symbolic call.",
+    "C03": "Round 6: no default argument of the evaluation modules constructs an object.",
+    "C04": "Round 6: keyword-only constructor parameters are among the argument names; no constructed default arguments.",
+    "C07": "Round 6: every value of a literal collection reaches IN (...).",
+    "C09": "Round 6: shares DOMAIN-CACHE (an abandoned stream loses no value).",
+    "C10": "Round 6: unpacking a stream counts as draining it; a stream handed to a lazy wrapper is stored, not read.",
+    "C11": "Round 6: no memoised member of a pattern is read before the fields it depends on are assigned.",
+    "C12": "Round 6: a literal's domain is [data] on every path; every expression kind stays symbolic as an argument.",
+    "C13": "Round 6: shares IDKEY.",
+    "C14": "Round 6: graph wrappers have no truth value of their own.",
+    "C15": "Round 6: a sub-property asserted in the constructor raises (known).",
+    "C16": "Round 6: positional mutators store through the builtin of the same name at the caller's position, resolved before the hook can grow the list.",
+    "C17": "Round 6: variadic tuples are in the type model; no constructed default arguments.",
+    "C18": "Round 6: no constructed default arguments in the serializer.",
+    "C19": "Round 6: module-level __getattr__ hooks of the package let only AttributeError out.",
+    "C20": "Round 6: shares STREAM-LAZY.",
+}
+for _k, _v in ADDENDA5.items():
+    CLAIMS[_k]["text"] = CLAIMS[_k]["text"].rstrip() + " " + _v
